@@ -61,6 +61,41 @@ def defining(cls, meth):
     return cls.__name__
 
 
+BV = "DenseBreedingValueMatrix"
+BV_TRAIT_SITE = BV + ".<trait-axis operation> (inherited from DenseTaxaTraitMatrix/DenseTraitMatrix)"
+BV_TRAIT_REL = "per-trait location/scale follow the traits, so that unscale() returns the entities' values"
+
+
+def site_of(name, cls, meth):
+    """Finding-key site: the defining class of the method; the breeding-value matrix keeps its own sites because its
+    cells are judged through unscale(), i.e. through state (location/scale) the inherited implementations do not know."""
+    d = defining(cls, meth)
+    if name == BV:
+        return "%s.%s%s" % (BV, meth, "" if d == BV else " (inherited from %s)" % d)
+    return "%s.%s" % (d, meth)
+
+
+def bv_scale_stale(obj, ids, regime):
+    """Breeding-value matrix only: every label array and the *stored* (standardised) values are exactly those of the
+    expected entities and only location/scale are not the location/scale of those trait columns."""
+    try:
+        for f, e in expected_fields(BV, ids, regime).items():
+            v = getattr(obj, f, None)
+            if (e is None) != (v is None) or (e is not None and numpy.asarray(v).tolist() != numpy.asarray(e).tolist()):
+                return False
+        E = LM.cells("float", SPECS[BV][1], ids)
+        loc = E.mean(0); sc = E.std(0); sc[sc == 0.0] = 1.0
+        Z = (E - loc) / sc
+        m = numpy.asarray(obj.mat)
+        if m.shape != Z.shape or not numpy.allclose(m, Z, rtol=1e-9, atol=1e-9):
+            return False
+        lo = numpy.asarray(obj.location); so = numpy.asarray(obj.scale)
+        return not (lo.shape == loc.shape and so.shape == sc.shape and numpy.allclose(lo, loc, rtol=1e-9, atol=1e-6) and
+                    numpy.allclose(so, sc, rtol=1e-9, atol=1e-9))
+    except Exception:
+        return False
+
+
 def build(name, ids, regime):
     cls = klass(name)
     _, dims, kind = SPECS[name]
@@ -221,11 +256,13 @@ def gen_index(g, n, form):
     return ix.astype("int64"), "ndarray"
 
 
-def run_variants(ctx, name, variants, obj, regime, operands):
-    """Execute each variant on its own deep copy; returns list of (tag, meth, mutating, result-or-None, exception-or-None, receiver-after)."""
+def run_variants(ctx, name, variants, obj, regime, operands, live_obj=None):
+    """Execute each variant on its own deep copy of ``obj``; returns list of (tag, meth, mutating, result-or-None,
+    exception-or-None, receiver-after, operands-after).  If ``live_obj`` is given (in-place operations only) the first
+    variant runs on that object itself, so that arrays it shares with matrices derived earlier are really exposed."""
     out = []
-    for tag, meth, mut, fn in variants:
-        o = copy.deepcopy(obj)
+    for k, (tag, meth, mut, fn) in enumerate(variants):
+        o = live_obj if (live_obj is not None and k == 0) else copy.deepcopy(obj)
         ops = [copy.deepcopy(x) for x in operands]
         try:
             r = fn(o, ops)
@@ -236,7 +273,24 @@ def run_variants(ctx, name, variants, obj, regime, operands):
     return out
 
 
-def step(ctx, g, name, obj, ids, regime, nxt, hist, coords):
+def step(ctx, g, name, obj, ids, regime, nxt, hist, coords, sibs):
+    out = step_(ctx, g, name, obj, ids, regime, nxt, hist, coords, sibs)
+    if hist and not hist[-1].endswith("raised") and out[2] != "skipped":
+        # every matrix the live object was derived from by a non-mutating operation (they may share label arrays with
+        # it) must still carry its own labels and cells after whatever was just done to the live object
+        for k in range(len(sibs) - 1, -1, -1):
+            sobj, sids, born = sibs[k]
+            bad = compare_model(name, sobj, sids, regime)
+            ctx.check("C03.model", not bad, "%s on a derived matrix" % hist[-1].split("(")[0],
+                      "a matrix the receiver was derived from (non-mutating operation) keeps its labels and cells", "shared arrays",
+                      what="%s: after %s on the derived matrix, its source (state after step %d) has wrong %s" % (name, hist[-1], born, bad),
+                      witness={"class": name, "history": list(hist), "source_after_step": born, "fields": bad}, coords=coords)
+            if bad:
+                del sibs[k]
+    return out
+
+
+def step_(ctx, g, name, obj, ids, regime, nxt, hist, coords, sibs):
     cls = klass(name)
     axmap = axes_of(name)
     axis = list(axmap)[int(g.integers(len(axmap)))]
@@ -277,11 +331,11 @@ def step(ctx, g, name, obj, ids, regime, nxt, hist, coords):
                     ("select(axis)", "select", False, lambda o, _: o.select(arg, axis=ax))]
     elif op == "delete":
         if n < 2:
-            return obj, ids, None
+            return obj, ids, "skipped"
         arg, form = gen_index(g, n, str(g.choice(["int", "slice", "ndarray", "list", "mask"])))
         new = LM.apply_index(cur, "delete", arg)
         if len(new) == 0:
-            return obj, ids, None
+            return obj, ids, "skipped"
         variants = [("delete" + S, "delete" + S, False, lambda o, _: getattr(o, "delete" + S)(arg)),
                     ("delete(axis)", "delete", False, lambda o, _: o.delete(arg, axis=ax)),
                     ("remove" + S, "remove" + S, True, lambda o, _: getattr(o, "remove" + S)(arg)),
@@ -330,7 +384,7 @@ def step(ctx, g, name, obj, ids, regime, nxt, hist, coords):
                     n1 = [int(str(x)[1:]) for x in prim]
                     new = cur + n1 + (new[len(cur) + len(n1):])
                 else:
-                    return obj, ids, None
+                    return obj, ids, "skipped"
             except Exception:
                 pass
         form = "%d operands" % (1 + len(operands))
@@ -368,17 +422,19 @@ def step(ctx, g, name, obj, ids, regime, nxt, hist, coords):
                     ("ungroup(axis)", "ungroup", True, lambda o, _: o.ungroup(axis=ax))]
     variants = [v for v in variants if hasattr(cls, v[1])]
     if not variants:
-        return obj, ids, None
+        return obj, ids, "skipped"
     hist.append("%s[%s](%s)" % (op, axis, form))
     icls_op = icls + ("/scalar index with multi-entity block" if op == "insert" and form.startswith("scalar") and not form.startswith("scalar index, 1-") else "")
     before = observe(name, obj, regime)
     op_before = [observe(name, x, regime) for x in operands]
-    results = run_variants(ctx, name, variants, obj, regime, operands)
+    live = all(v[2] for v in variants)     # in-place operation: run the first form on the live object itself
+    src = copy.deepcopy(obj) if live else obj
+    results = run_variants(ctx, name, variants, src, regime, operands, live_obj=obj if live else None)
     ok_res = [r for r in results if r[4] is None]
     w0 = {"class": name, "regime": detail, "history": list(hist), "ids_before": {a: list(v) for a, v in ids.items()}}
     # ---- purity / atomicity
     for tag, meth, mut, res, exc, recv, ops_after in results:
-        site = "%s.%s" % (defining(cls, meth), meth)
+        site = site_of(name, cls, meth)
         if exc is None and not mut:
             ctx.check("C03.pure", res is not recv and not diff_state(before, observe(name, recv, regime)) and
                       all(not diff_state(b, observe(name, x, regime)) for b, x in zip(op_before, ops_after)), site,
@@ -394,42 +450,64 @@ def step(ctx, g, name, obj, ids, regime, nxt, hist, coords):
     if not ok_res:
         ctx.raised("%s.%s[%s]" % (name, op, axis), results[0][4])
         hist[-1] += " -> raised"
-        return obj, ids, None
+        return src, ids, None
     # ---- equivalence between forms
     ref = ok_res[0]
     ref_state = observe(name, ref[3], regime)
     for tag, meth, mut, res, exc, recv, _ in results:
-        site = "%s.%s" % (defining(cls, meth), meth)
+        site = site_of(name, cls, meth)
         if exc is not None:
             ctx.check("C03.equiv", False, site, "raises %s while an equivalent form succeeds" % type(exc).__name__, icls_op,
                       what="%s raised %s (%s) while %s succeeded" % (site, type(exc).__name__, str(exc)[:80], ref[0]),
                       witness=dict(w0, succeeded=ref[0]), coords=coords)
         elif res is not ref[3]:
             d = diff_state(ref_state, observe(name, res, regime))
-            ctx.check("C03.equiv", not d, site, "same state as %s" % ("its non-mutating counterpart" if mut != ref[2] else "the axis-specific form"), icls_op,
+            rel = "same state as %s" % ("its non-mutating counterpart" if mut != ref[2] else "the axis-specific form")
+            if d == ["data"] and name == BV and axis == "trait" and numpy.array_equal(numpy.asarray(res.mat), numpy.asarray(ref[3].mat), equal_nan=True):
+                # stored values and labels agree, only location/scale differ: one mechanism for every trait-axis operation
+                ctx.check("C03.equiv", False, BV_TRAIT_SITE, rel + " (location/scale)", icls,
+                          what="%s and %s: same stored values and labels but different location/scale (%s/%s vs %s/%s)" % (
+                              site, ref[0], res.location, res.scale, ref[3].location, ref[3].scale),
+                          witness=dict(w0, fields=d, reference=ref[0], form=tag), coords=coords)
+                continue
+            ctx.check("C03.equiv", not d, site, rel, icls_op,
                       what="%s and %s differ in %s" % (site, ref[0], d), witness=dict(w0, fields=d, reference=ref[0]), coords=coords)
     # ---- model / intrinsic / groups on the reference result
     res = ref[3]
-    site = "%s.%s" % (defining(cls, ref[1]), ref[1])
+    site = site_of(name, cls, ref[1])
     if permutation_only:
-        new = permutation_check(ctx, name, obj, res, ids, regime, axis, G_, site, icls, w0, coords, op)
+        new = permutation_check(ctx, name, src, res, ids, regime, axis, G_, site, icls, w0, coords, op)
         if new is None:
             return build(name, ids, regime), ids, "resync"
     ids2 = dict(ids); ids2[axis] = new
     bad = compare_model(name, res, ids2, regime)
+    if bad and name == BV and axis == "trait" and bv_scale_stale(res, ids2, regime):
+        # all labels and the stored values are right, only location/scale were not carried along
+        ctx.check("C03.model", False, BV_TRAIT_SITE, BV_TRAIT_REL, icls,
+                  what="%s: labels and stored values are those of the expected entities but location=%s scale=%s, so unscale() %s" % (
+                      site, res.location, res.scale, bad), witness=dict(w0, fields=bad, expected_ids=new, operation=ref[0]), coords=coords)
+        if regime.kind == "unique":
+            ctx.check("C03.intrinsic", False, BV_TRAIT_SITE, BV_TRAIT_REL, icls, witness=dict(w0, fields=bad, operation=ref[0]), coords=coords)
+        return build(name, ids2, regime), ids2, "resync"
     ctx.check("C03.model", not bad, site, "labels and cells equal those of the expected entity sequence", icls_op,
               what="%s (%s): fields %s differ from the entity model" % (site, name, bad), witness=dict(w0, fields=bad, expected_ids=new), coords=coords)
     dec = check_intrinsic(ctx, name, res, regime, site, icls_op, coords, list(hist))
     gok = check_groups(ctx, name, res, site, icls, coords, list(hist))
     if not gok or bad or (dec is not None and dec != {a: list(v) for a, v in ids2.items()}):
         return build(name, ids2, regime), ids2, "resync"      # resynchronisation rule
+    if not ref[2]:
+        # the receiver copy the result was derived from stays alive as a sibling (it may share arrays with the result)
+        sibs.append((ref[5], {a: list(v) for a, v in ids.items()}, len(hist) - 1))
+        del sibs[:-2]
     return res, ids2, None
 
 
 def records(name, obj, regime, axis):
     """Per-position records along ``axis`` (all labels of that axis + the data slice)."""
     ax = axes_of(name)[axis]
-    d = numpy.asarray(data_of(name, obj))
+    # breeding-value matrix: rows/columns are matched on the stored values; the cells themselves are then judged
+    # through unscale() against the entity order found here
+    d = numpy.asarray(obj.mat if name == BV else data_of(name, obj))
     n = d.shape[ax[0]]
     labs = [getattr(obj, f, None) for f in regime.labels(axis, [0]).keys()]
     recs = []
@@ -506,7 +584,7 @@ def lexsort_step(ctx, g, name, obj, ids, regime, axis, ax, keys, form, icls, his
         return obj, ids, None
     n = len(ids[axis])
     for tag, meth, r, exc, o in outs:
-        site = "%s.%s" % (defining(cls, meth), meth)
+        site = site_of(name, cls, meth)
         w = {"class": name, "history": list(hist), "indices": r}
         if exc is not None:
             ctx.check("C03.equiv", False, site, "raises %s while an equivalent form succeeds" % type(exc).__name__, icls, witness=w, coords=coords)
@@ -602,9 +680,10 @@ def one_history(ctx, c):
         return
     nsteps = int(g.integers(1, 13)) if ctx.tier == "quick" else int(g.integers(1, 41))
     hist = []
+    sibs = []
     for s in range(nsteps):
         try:
-            obj, ids, note = step(ctx, g, name, obj, ids, regime, nxt, hist, coords)
+            obj, ids, note = step(ctx, g, name, obj, ids, regime, nxt, hist, coords, sibs)
         except Exception as e:  # harness problem: surface it, never hide it
             raise
         if note == "resync":
